@@ -21,7 +21,7 @@ func modulePrivacyOracle(c *Ctx) {
 oa := import("objarr")
 ob := import("objbytes")
 os := import("objsync")
-before := [v.n, string(v.arr), v.m.k, string(v.by), v.deep.a[0].x, string(v.deep.a[1]), v.sm.k, len(v.em), len(v.ea), len(v.esm), len(v.wrap.inner), len(v.wrap.list[0]), string(oa), string(ob), os.k]
+before := [v.n, string(v.arr), v.m.k, string(v.by), v.deep.a[0].x, string(v.deep.a[1]), v.sm.k, len(v.em), len(v.ea), len(v.esm), len(v.wrap.inner), len(v.wrap.list[0]), string(oa), string(ob), os.k, string(os.nest), string(os.by)]
 v.n += 1
 v.arr[0] = 9
 v.m.k = 9
@@ -38,6 +38,9 @@ oa[0] = 9
 ob[0] = 9
 os.k = 9
 os.z = 1
+os.nest[0] = 9
+os.nest[1].x = 9
+os.by[0] = 9
 return before
 `
 	for _, noOpt := range []bool{true, false} {
@@ -47,7 +50,7 @@ return before
 			c.Violation(PropViolation{"C12", "module-privacy script does not compile: " + err.Error(), src, "C12:privacy-compile"})
 			continue
 		}
-		want := `[1, "[0, 0, 0]", 0, "\x00\x00\x00\x00", 0, "\a", 0, 0, 0, 0, 0, 0, "[1, 2, 3]", "\x01\x02\x03", 0]`
+		want := `[1, "[0, 0, 0]", 0, "\x00\x00\x00\x00", 0, "\a", 0, 0, 0, 0, 0, 0, "[1, 2, 3]", "\x01\x02\x03", 0, "[1, {\"x\": 0}]", "\x05"]`
 		for i := 1; i <= 3; i++ {
 			ret, err := ugo.NewVM(bc).Run(nil)
 			got := fmt.Sprint(ret)
